@@ -14,6 +14,7 @@ import (
 
 	"github.com/ja7ad/otp/verifharness/ev"
 	"github.com/ja7ad/otp/verifharness/irt"
+	"github.com/ja7ad/otp/verifharness/sched"
 	"github.com/ja7ad/otp/verifharness/xplore"
 )
 
@@ -35,53 +36,60 @@ type scen struct {
 	threads [][]string // op names per thread
 	bound   [2]int     // preemption+deviation bound: quick, thorough
 	coarse  bool       // scheduling points only at sync operations (unbounded exploration)
+	paused  bool       // scheduling points in thread 0 only: one call paused anywhere while the others complete many calls
 }
 
 var c11Scens = []scen{
-	{"hotp||hotp", []string{"hotp-c1"}, [][]string{{"hotp-c1"}, {"hotp-c2^40-sha256-8"}}, [2]int{2, 3}, false},
-	{"hotp||hotp cold", nil, [][]string{{"hotp-10digits"}, {"hotp-1digit"}}, [2]int{2, 3}, false},
-	{"hotp-gen||hotp-validate", []string{"hotp-c1"}, [][]string{{"hotp-c1"}, {"hotp-validate-hit(-1)"}}, [2]int{2, 3}, false},
-	{"totp||hotp||adversary", []string{"hotp-c1"}, [][]string{{"totp-gen"}, {"hotp-c1"}, {"adversary-4226"}}, [2]int{1, 2}, false},
-	{"ocra-short||ocra-long", []string{"ocra-short"}, [][]string{{"ocra-short"}, {"ocra-long"}}, [2]int{2, 3}, false},
-	{"ocra-long||ocra-long", []string{"ocra-short"}, [][]string{{"ocra-long"}, {"ocra-long-2"}}, [2]int{1, 2}, false},
-	{"ocra-gen||ocra-validate||adversary", []string{"ocra-short"}, [][]string{{"ocra-short"}, {"ocra-validate-hit"}, {"adversary-6287"}}, [2]int{1, 2}, false},
-	{"suites", nil, [][]string{{"suite OCRA-1:HOTP-SHA256-8:C-QA10-PSHA256-S-T1"}, {"suite OCRA-1:HOTP-SHA256-7:QN10-T5M"}, {"list-suites"}}, [2]int{1, 2}, false},
-	{"suite look-alikes after the originals", churnWarm(), [][]string{{"suite-lookalikes-refused"}, {"suite-parse-8", "suite-parse-15"}}, [2]int{1, 1}, false},
-	{"suite-cache churn", churnWarm(), [][]string{{"suite-parse-40", "suite-parse-39", "suite-parse-37", "suite-parse-33", "suite-parse-25", "suite-parse-9"}, {"suite-parse-41", "suite-parse-42", "suite-parse-43"}}, [2]int{1, 2}, false},
-	{"url||url", []string{"url-totp"}, [][]string{{"url-totp"}, {"url-hotp"}}, [2]int{1, 2}, false},
-	{"url-hotp||url-hotp", nil, [][]string{{"url-hotp"}, {"url-hotp-2"}}, [2]int{1, 2}, false},
-	{"url-totp||url-totp||url-hotp", []string{"url-hotp"}, [][]string{{"url-totp"}, {"url-totp-2"}, {"url-hotp-2"}}, [2]int{1, 2}, false},
-	{"decode||decode||random", nil, [][]string{{"decode-secret-0", "decode-secret-bad"}, {"decode-secret-1", "decode-secret-2"}, {"random-secret-0"}}, [2]int{1, 2}, false},
-	{"after refusals: totp||totp||totp-validate", []string{"refused-calls"}, [][]string{{"totp-gen"}, {"totp-gen-sha512-6-p60"}, {"totp-validate-hit"}}, [2]int{1, 2}, false},
-	{"after refusals: hotp||hotp-validate||ocra", []string{"refused-calls", "refused-calls"}, [][]string{{"hotp-c2^40-sha256-8"}, {"hotp-validate-hit(-1)"}, {"ocra-short"}}, [2]int{1, 2}, false},
-	{"refusals||totp||totp", nil, [][]string{{"refused-calls"}, {"totp-gen", "totp-gen-sha512-6-p60"}, {"totp-gen-sha512-6-p60", "totp-gen"}}, [2]int{1, 2}, false},
-	{"refusals of a kind overlap: short||short", nil, [][]string{{"ocra-refused-short-2-of-8"}, {"ocra-refused-short-7-of-10"}}, [2]int{2, 3}, false},
-	{"refusals of a kind overlap: long||long||counter", nil, [][]string{{"ocra-refused-long-200"}, {"ocra-refused-long-129"}, {"ocra-refused-counter-3", "ocra-refused-counter-9"}}, [2]int{1, 2}, false},
-	{"refusals of a kind overlap: counter||counter", []string{"ocra-short"}, [][]string{{"ocra-refused-counter-3"}, {"ocra-refused-counter-9"}}, [2]int{2, 3}, false},
-	{"wide hit then narrow miss: totp||totp||hotp", []string{"totp-validate-hit(+3)-skew3"}, [][]string{{"totp-validate-miss(+3)-skew1", "totp-validate-hit(-2)-skew3"}, {"totp-validate-miss(-2)-skew1"}, {"hotp-validate-hit(+3)-skew3", "hotp-validate-miss(+3)-skew1"}}, [2]int{1, 2}, false},
-	{"helpers refused||short||a", nil, [][]string{{"helpers-refused", "helpers-short"}, {"helpers-short", "helpers-refused"}, {"helpers-a"}}, [2]int{1, 2}, false},
-	{"helpers||helpers||random", nil, [][]string{{"helpers-a"}, {"helpers-b"}, {"random-secret-2", "random-secret-0"}}, [2]int{1, 2}, false},
-	{"ocra 1||2", []string{"ocra-short"}, [][]string{{"ocra-short"}, {"ocra-long", "ocra-validate-hit"}}, [2]int{1, 2}, false},
-	{"ocra 1||2 cold", nil, [][]string{{"ocra-long"}, {"ocra-short", "ocra-long-2"}}, [2]int{1, 2}, false},
-	{"hotp 1||2", []string{"hotp-c1"}, [][]string{{"hotp-10digits"}, {"hotp-c2^40-sha256-8", "totp-gen"}}, [2]int{1, 2}, false},
-	{"first use: list||list", nil, [][]string{{"list-suites"}, {"list-suites"}}, [2]int{2, 3}, false},
-	{"first use: parse||parse||list", nil, [][]string{{"suite-parse-1"}, {"suite-parse-1"}, {"list-suites"}}, [2]int{1, 2}, false},
-	{"first use: hotp||hotp same call", nil, [][]string{{"hotp-c1"}, {"hotp-c1"}}, [2]int{2, 3}, false},
-	{"first use: ocra||ocra same call", nil, [][]string{{"ocra-short"}, {"ocra-short"}}, [2]int{2, 3}, false},
-	{"first use: url||decode||random", nil, [][]string{{"url-totp"}, {"decode-secret-1"}, {"random-secret-0"}}, [2]int{1, 2}, false},
-	{"random||random", nil, [][]string{{"random-stream-0"}, {"random-stream-0"}}, [2]int{2, 3}, false},
-	{"random||random 64", []string{"random-stream-0"}, [][]string{{"random-stream-2"}, {"random-stream-0"}}, [2]int{2, 3}, false},
-	{"random after refused algorithms: random||random", []string{"random-refused"}, [][]string{{"random-stream-0"}, {"random-stream-2"}}, [2]int{2, 3}, false},
-	{"random refused||random||random", nil, [][]string{{"random-refused"}, {"random-stream-0", "random-stream-2"}, {"random-stream-2"}}, [2]int{1, 2}, false},
-	{"random 1||2||decode", nil, [][]string{{"random-stream-0"}, {"random-stream-2", "random-stream-0"}, {"decode-secret-1"}}, [2]int{1, 2}, false},
-	{"ocra fields in one shared buffer", nil, [][]string{{"ocra-arena-0"}, {"ocra-arena-1"}, {"ocra-arena-2"}}, [2]int{1, 2}, false},
-	{"ocra fields in one shared buffer 1||2", []string{"ocra-short"}, [][]string{{"ocra-arena-1"}, {"ocra-arena-0", "ocra-arena-2"}}, [2]int{2, 3}, false},
-	{"after a long message: ocra||ocra", []string{"ocra-long"}, [][]string{{"ocra-short"}, {"ocra-validate-hit"}}, [2]int{2, 3}, false},
-	{"after two long messages: ocra||ocra||ocra", []string{"ocra-long", "ocra-long-2"}, [][]string{{"ocra-short"}, {"ocra-arena-0"}, {"ocra-validate-hit"}}, [2]int{1, 2}, false},
-	{"decode-and-wipe||hotp||totp", []string{"hotp-c1"}, [][]string{{"decode-and-wipe", "decode-and-wipe"}, {"hotp-c1"}, {"totp-gen"}}, [2]int{1, 2}, false},
-	{"3xhotp retained", []string{"hotp-c1"}, [][]string{{"hotp-c1", "hotp-1digit"}, {"hotp-c2^40-sha256-8"}, {"hotp-10digits"}}, [2]int{1, 2}, false},
-	{"hotp||hotp||gc unbounded-at-pool-ops", []string{"hotp-c1"}, [][]string{{"hotp-c1", "totp-gen"}, {"hotp-c2^40-sha256-8", "hotp-1digit"}, {"gc"}}, [2]int{-1, -1}, true},
-	{"ocra||ocra||adversary unbounded-at-pool-ops", []string{"ocra-short"}, [][]string{{"ocra-short", "ocra-long"}, {"ocra-validate-hit"}, {"adversary-6287"}}, [2]int{-1, -1}, true},
+	{"hotp||hotp", []string{"hotp-c1"}, [][]string{{"hotp-c1"}, {"hotp-c2^40-sha256-8"}}, [2]int{2, 3}, false, false},
+	{"hotp||hotp cold", nil, [][]string{{"hotp-10digits"}, {"hotp-1digit"}}, [2]int{2, 3}, false, false},
+	{"hotp-gen||hotp-validate", []string{"hotp-c1"}, [][]string{{"hotp-c1"}, {"hotp-validate-hit(-1)"}}, [2]int{2, 3}, false, false},
+	{"totp||hotp||adversary", []string{"hotp-c1"}, [][]string{{"totp-gen"}, {"hotp-c1"}, {"adversary-4226"}}, [2]int{1, 2}, false, false},
+	{"ocra-short||ocra-long", []string{"ocra-short"}, [][]string{{"ocra-short"}, {"ocra-long"}}, [2]int{2, 3}, false, false},
+	{"ocra-long||ocra-long", []string{"ocra-short"}, [][]string{{"ocra-long"}, {"ocra-long-2"}}, [2]int{1, 2}, false, false},
+	{"ocra-gen||ocra-validate||adversary", []string{"ocra-short"}, [][]string{{"ocra-short"}, {"ocra-validate-hit"}, {"adversary-6287"}}, [2]int{1, 2}, false, false},
+	{"suites", nil, [][]string{{"suite OCRA-1:HOTP-SHA256-8:C-QA10-PSHA256-S-T1"}, {"suite OCRA-1:HOTP-SHA256-7:QN10-T5M"}, {"list-suites"}}, [2]int{1, 2}, false, false},
+	{"suite look-alikes after the originals", churnWarm(), [][]string{{"suite-lookalikes-refused"}, {"suite-parse-8", "suite-parse-15"}}, [2]int{1, 1}, false, false},
+	{"suite-cache churn", churnWarm(), [][]string{{"suite-parse-40", "suite-parse-39", "suite-parse-37", "suite-parse-33", "suite-parse-25", "suite-parse-9"}, {"suite-parse-41", "suite-parse-42", "suite-parse-43"}}, [2]int{1, 2}, false, false},
+	{"url||url", []string{"url-totp"}, [][]string{{"url-totp"}, {"url-hotp"}}, [2]int{1, 2}, false, false},
+	{"url-hotp||url-hotp", nil, [][]string{{"url-hotp"}, {"url-hotp-2"}}, [2]int{1, 2}, false, false},
+	{"url-totp||url-totp||url-hotp", []string{"url-hotp"}, [][]string{{"url-totp"}, {"url-totp-2"}, {"url-hotp-2"}}, [2]int{1, 2}, false, false},
+	{"decode||decode||random", nil, [][]string{{"decode-secret-0", "decode-secret-bad"}, {"decode-secret-1", "decode-secret-2"}, {"random-secret-0"}}, [2]int{1, 2}, false, false},
+	{"after refusals: totp||totp||totp-validate", []string{"refused-calls"}, [][]string{{"totp-gen"}, {"totp-gen-sha512-6-p60"}, {"totp-validate-hit"}}, [2]int{1, 2}, false, false},
+	{"after refusals: hotp||hotp-validate||ocra", []string{"refused-calls", "refused-calls"}, [][]string{{"hotp-c2^40-sha256-8"}, {"hotp-validate-hit(-1)"}, {"ocra-short"}}, [2]int{1, 2}, false, false},
+	{"refusals||totp||totp", nil, [][]string{{"refused-calls"}, {"totp-gen", "totp-gen-sha512-6-p60"}, {"totp-gen-sha512-6-p60", "totp-gen"}}, [2]int{1, 2}, false, false},
+	{"refusals of a kind overlap: short||short", nil, [][]string{{"ocra-refused-short-2-of-8"}, {"ocra-refused-short-7-of-10"}}, [2]int{2, 3}, false, false},
+	{"refusals of a kind overlap: long||long||counter", nil, [][]string{{"ocra-refused-long-200"}, {"ocra-refused-long-129"}, {"ocra-refused-counter-3", "ocra-refused-counter-9"}}, [2]int{1, 2}, false, false},
+	{"refusals of a kind overlap: counter||counter", []string{"ocra-short"}, [][]string{{"ocra-refused-counter-3"}, {"ocra-refused-counter-9"}}, [2]int{2, 3}, false, false},
+	{"wide hit then narrow miss: totp||totp||hotp", []string{"totp-validate-hit(+3)-skew3"}, [][]string{{"totp-validate-miss(+3)-skew1", "totp-validate-hit(-2)-skew3"}, {"totp-validate-miss(-2)-skew1"}, {"hotp-validate-hit(+3)-skew3", "hotp-validate-miss(+3)-skew1"}}, [2]int{1, 2}, false, false},
+	{"helpers refused||short||a", nil, [][]string{{"helpers-refused", "helpers-short"}, {"helpers-short", "helpers-refused"}, {"helpers-a"}}, [2]int{1, 2}, false, false},
+	{"helpers||helpers||random", nil, [][]string{{"helpers-a"}, {"helpers-b"}, {"random-secret-2", "random-secret-0"}}, [2]int{1, 2}, false, false},
+	{"ocra 1||2", []string{"ocra-short"}, [][]string{{"ocra-short"}, {"ocra-long", "ocra-validate-hit"}}, [2]int{1, 2}, false, false},
+	{"ocra 1||2 cold", nil, [][]string{{"ocra-long"}, {"ocra-short", "ocra-long-2"}}, [2]int{1, 2}, false, false},
+	{"hotp 1||2", []string{"hotp-c1"}, [][]string{{"hotp-10digits"}, {"hotp-c2^40-sha256-8", "totp-gen"}}, [2]int{1, 2}, false, false},
+	{"first use: list||list", nil, [][]string{{"list-suites"}, {"list-suites"}}, [2]int{2, 3}, false, false},
+	{"first use: parse||parse||list", nil, [][]string{{"suite-parse-1"}, {"suite-parse-1"}, {"list-suites"}}, [2]int{1, 2}, false, false},
+	{"first use: hotp||hotp same call", nil, [][]string{{"hotp-c1"}, {"hotp-c1"}}, [2]int{2, 3}, false, false},
+	{"first use: ocra||ocra same call", nil, [][]string{{"ocra-short"}, {"ocra-short"}}, [2]int{2, 3}, false, false},
+	{"first use: url||decode||random", nil, [][]string{{"url-totp"}, {"decode-secret-1"}, {"random-secret-0"}}, [2]int{1, 2}, false, false},
+	{"random||random", nil, [][]string{{"random-stream-0"}, {"random-stream-0"}}, [2]int{2, 3}, false, false},
+	{"random||random 64", []string{"random-stream-0"}, [][]string{{"random-stream-2"}, {"random-stream-0"}}, [2]int{2, 3}, false, false},
+	{"random after refused algorithms: random||random", []string{"random-refused"}, [][]string{{"random-stream-0"}, {"random-stream-2"}}, [2]int{2, 3}, false, false},
+	{"random refused||random||random", nil, [][]string{{"random-refused"}, {"random-stream-0", "random-stream-2"}, {"random-stream-2"}}, [2]int{1, 2}, false, false},
+	{"random 1||2||decode", nil, [][]string{{"random-stream-0"}, {"random-stream-2", "random-stream-0"}, {"decode-secret-1"}}, [2]int{1, 2}, false, false},
+	{"ocra fields in one shared buffer", nil, [][]string{{"ocra-arena-0"}, {"ocra-arena-1"}, {"ocra-arena-2"}}, [2]int{1, 2}, false, false},
+	{"ocra fields in one shared buffer 1||2", []string{"ocra-short"}, [][]string{{"ocra-arena-1"}, {"ocra-arena-0", "ocra-arena-2"}}, [2]int{2, 3}, false, false},
+	{"after a long message: ocra||ocra", []string{"ocra-long"}, [][]string{{"ocra-short"}, {"ocra-validate-hit"}}, [2]int{2, 3}, false, false},
+	{"after two long messages: ocra||ocra||ocra", []string{"ocra-long", "ocra-long-2"}, [][]string{{"ocra-short"}, {"ocra-arena-0"}, {"ocra-validate-hit"}}, [2]int{1, 2}, false, false},
+	{"decode-and-wipe||hotp||totp", []string{"hotp-c1"}, [][]string{{"decode-and-wipe", "decode-and-wipe"}, {"hotp-c1"}, {"totp-gen"}}, [2]int{1, 2}, false, false},
+	{"3xhotp retained", []string{"hotp-c1"}, [][]string{{"hotp-c1", "hotp-1digit"}, {"hotp-c2^40-sha256-8"}, {"hotp-10digits"}}, [2]int{1, 2}, false, false},
+	{"ocra suites that are prefixes of one another", []string{"ocra-short-ext-P"}, [][]string{{"ocra-short"}, {"ocra-short-ext-T"}, {"ocra-short-ext-P"}}, [2]int{1, 2}, false, false},
+	{"one hotp paused while 90 others complete", []string{"hotp-c1"}, [][]string{{"hotp-c2^40-sha256-8"}, {"many-hotp-90"}}, [2]int{2, 3}, false, true},
+	{"one totp validation paused while 105 steps are derived", nil, [][]string{{"totp-validate-hit"}, {"many-totp-validate-miss-x5"}}, [2]int{2, 3}, false, true},
+	{"one ocra paused while 70 others complete", []string{"ocra-short"}, [][]string{{"ocra-short"}, {"many-ocra-70"}}, [2]int{2, 3}, false, true},
+	{"one ocra validation paused while hotp and ocra threads complete many", nil, [][]string{{"ocra-validate-hit"}, {"many-hotp-90"}, {"many-ocra-70"}}, [2]int{2, 3}, false, true},
+	{"one long ocra paused while 260 hotp complete", nil, [][]string{{"ocra-long"}, {"many-hotp-90", "many-hotp-90", "many-hotp-90"}}, [2]int{2, 3}, false, true},
+	{"hotp||hotp||gc unbounded-at-pool-ops", []string{"hotp-c1"}, [][]string{{"hotp-c1", "totp-gen"}, {"hotp-c2^40-sha256-8", "hotp-1digit"}, {"gc"}}, [2]int{-1, -1}, true, false},
+	{"ocra||ocra||adversary unbounded-at-pool-ops", []string{"ocra-short"}, [][]string{{"ocra-short", "ocra-long"}, {"ocra-validate-hit"}, {"adversary-6287"}}, [2]int{-1, -1}, true, false},
 }
 
 func churnWarm() []string {
@@ -191,6 +199,11 @@ func (e *c11Env) runSchedule(sc scen, x *xplore.X) (outcome, pattern, bad string
 	var res = irt.RunThreads
 	if sc.coarse {
 		res = irt.RunThreadsCoarse
+	}
+	if sc.paused {
+		res = func(x *xplore.X, horizon int, _ bool, bodies []func()) sched.Result {
+			return irt.RunThreadsPaused(x, horizon, bodies)
+		}
 	}
 	rr := res(x, 50000, true, bodies)
 	pattern = string(irt.SyncPattern)
@@ -342,6 +355,9 @@ func c11(r *ev.Run) {
 			if strings.HasPrefix(e.ops[i].name, "suite-parse-") && e.ops[i].name != "suite-parse-1" && e.ops[i].name != "suite-parse-2" {
 				continue // the churn family is represented by two members in the history search
 			}
+			if strings.HasPrefix(e.ops[i].name, "many-") && len(path) > 1 {
+				continue // the composite operations (dozens of calls) only at the first two levels of the history search
+			}
 			np := append(append([]int{}, path...), i)
 			obs, bad := e.runHistory(np)
 			transitions++
@@ -444,7 +460,7 @@ func c11(r *ev.Run) {
 		}
 		m := per[j.sc.name]
 		if m == nil {
-			m = map[string]any{"bound": j.bound, "threads": j.sc.threads, "executions": int64(0), "points": int64(0), "max_points": 0, "outcomes": map[uint64]bool{}, "patterns": map[uint64]bool{}, "by_cost": []int64{}, "granularity": map[bool]string{false: "every statement + pool operations", true: "pool operations only"}[j.sc.coarse]}
+			m = map[string]any{"bound": j.bound, "threads": j.sc.threads, "executions": int64(0), "points": int64(0), "max_points": 0, "outcomes": map[uint64]bool{}, "patterns": map[uint64]bool{}, "by_cost": []int64{}, "granularity": map[bool]string{false: "every statement + pool operations", true: "pool operations only"}[j.sc.coarse] + map[bool]string{false: "", true: " (thread 0 only; the other threads run to completion once scheduled)"}[j.sc.paused]}
 			per[j.sc.name] = m
 		}
 		m["executions"] = m["executions"].(int64) + res.Executions
